@@ -367,7 +367,7 @@ int main(int argc, char ** argv) {
             start_ctx();
             if (line[0] != 'F') dl = unhex(line[1] ? line + 2 : "", &data);
             begin_call();
-            alarm(20);
+            alarm(10);
             if (line[0] == 'P') {
                 char * z = malloc(dl + 1);
                 memcpy(z, data, dl); z[dl] = 0;
